@@ -57,6 +57,10 @@ def cases(ctx):
             bad = {"value": float(rng.choice([-0.01, 1.01, 2.0, -1e-12, one_up, -5e-324, -1.0, 1e9, 0.0, 1.0, 0.5, np.inf, -np.inf, np.inf, 1.7e308])), "where": str(rng.choice(["g", "f"])),
                    "with_nan": bool(rng.random() < 0.35), "front": bool(rng.random() < 0.5)}
         ep, en = gen.easy(rng)
+        if i == 4 and getattr(ctx, "shard", 0) == 0:
+            # one large evaluation set per run (a million and more scores per class): the fraud view must still hold exactly the sorted scores
+            n_g, n_f = int(rng.choice([1_000_000, 1_000_003, 1_048_576])), int(rng.choice([1_000_000, 1_200_000]))
+            g, f, kind, bad = rng.random(n_g), rng.random(n_f) * 0.9, "large", None
         yield {"g": g, "f": f, "ep": ep, "en": en, "scl": str(rng.choice(["genuine", "fraud"])), "kind": kind, "bad": bad,
                "u": rng.uniform(0, 1, 8), "_seed": int(rng.integers(1 << 31))}
 
@@ -101,6 +105,17 @@ def execute(ctx, case):
         C(False, "construction raised although every score lies in [0,1]", "fraud-raise-iff", exc=repr(e))
         return True
     ref = Scores(g, f, nb_easy_pos=ep, nb_easy_neg=en, score_class="pos" if scl == "genuine" else "neg", equal_class="pos")
+    if case["kind"] == "large":
+        # the cheap part of the relation on a large set: the stored arrays, the matrices around the lowest / highest scores, the end-of-scale thresholds
+        sg, sf = np.sort(np.asarray(g)), np.sort(np.asarray(f))
+        C(np.array_equal(fs.genuines, sg) and np.array_equal(fs.frauds, sf) and np.array_equal(fs.pos, ref.pos) and np.array_equal(fs.neg, ref.neg),
+          "large set: genuines / frauds are not the sorted input scores", "fraud-large-arrays", first_genuines=np.asarray(fs.genuines[:3]), expected=sg[:3])
+        thr_ = np.array([sg[0], (sg[0] + sg[1]) / 2, sg[1], sf[0], (sf[0] + sf[1]) / 2, sf[1], sg[-1], sf[-1], 0.5])
+        C(np.array_equal(fs.cm(thr_).matrix, ref.cm(thr_).matrix), "large set: confusion matrices differ from the equivalent Scores", "fraud-large-cm")
+        for m_, r_ in (("tpr", 1.0), ("fnr", 0.0), ("fpr", 1.0), ("tnr", 0.0), ("tpr", 0.0), ("fpr", 0.0), ("topr", 1.0), ("tonr", 1.0)):
+            C(getattr(fs, "threshold_at_" + m_)(r_) == getattr(ref, "threshold_at_" + m_)(r_), "large set: end-of-scale threshold differs from the equivalent Scores", "fraud-large-thr", metric=m_, target=r_)
+        sess.sig_counts[("case",) + sig] += 1
+        return True
     if case["_seed"] % 3 == 0:
         # a history on one object: it held other scores (other class sizes), answered every kind of query about them, and then had its
         # score arrays replaced through the genuines/frauds setters (sorted, as the class keeps them) - it must now be the view of (g, f)
@@ -178,9 +193,18 @@ def execute(ctx, case):
             del kw_l["score_class"]  # "genuine" is the documented default
         if ep == 0 and en == 0 and case.get("_seed", 0) % 3 == 1:
             del kw_l["nb_easy_genuines"], kw_l["nb_easy_frauds"]
-        fl = FraudScores.from_labels(lab_in, sc_all[perm] if len(perm) else sc_all, **kw_l)
+        sc_in = sc_all[perm] if len(perm) else sc_all
+        shape_form = "flat"
+        n_ = len(sc_in)
+        if n_ and not isinstance(lab_in, list):
+            # labels and scores of matching shape, not necessarily 1-d: a row vector (batched model output), a column, an (r, c) block
+            shape_form = ["flat", "row", "column", "block", "flat"][(case.get("_seed", 0) // 3 + len(repr(glab))) % 5]
+            shp_ = {"row": (1, n_), "column": (n_, 1), "block": (2, n_ // 2) if n_ % 2 == 0 else (1, n_)}.get(shape_form)
+            if shp_ is not None:
+                lab_in, sc_in = lab_in.reshape(shp_), sc_in.reshape(shp_)
+        fl = FraudScores.from_labels(lab_in, sc_in, **kw_l)
         C(fl == ref and isinstance(fl, FraudScores), "from_labels does not split by the genuine label", "fraud-from-labels", genuine_label=repr(glab), labels_dtype=str(labels.dtype),
-          got_sizes=[len(fl.genuines), len(fl.frauds)], want_sizes=[len(g), len(f)])
+          got_sizes=[len(fl.genuines), len(fl.frauds)], want_sizes=[len(g), len(f)], shape=shape_form)
     # setters keep the alias
     fs2 = FraudScores(genuines=g, frauds=f, score_class=scl)
     newg = np.sort(np.asarray(g, float))[::2]
